@@ -20,7 +20,7 @@ Float tolerance: a finite non-integer float v (|v| < 1e6 by construction) must c
 |a - v| <= 0.5e-5 (+ 1e-9 relative slack for the tie cases, where round-half-even on v*1e5 and on the decimal
 expansion legitimately differ) and a*1e5 within 4 ulp of an integer (i.e. a has at most 5 decimals).
 """
-import os, math, zlib, shutil, hashlib, tempfile, itertools
+import os, json, math, zlib, gzip, shutil, hashlib, tempfile, itertools
 from hypothesis import strategies as st
 
 from vlib.core import Sub
@@ -45,7 +45,9 @@ RULE = ("cases = (1-2 environment / learner / evaluator doubles with generated p
         "sink kind none/plain/.gz, restored second run or not, optional description); sub-check 'shapes' enumerates "
         "completely all columns of 1..3 rows over 10 value shapes; 'bigfile' enumerates single records above and exactly at 2**20 characters "
         "(many rows, long cells, long params value; plain/.gz; fresh/restored); 'gzalign' enumerates restored runs on complete .gz files whose "
-        "description is padded until a chosen non-final gzip member ends on a multiple of 4096 bytes (rows stamped with the run that produced them). Non-trivial = some triple has ragged key sets or a "
+        "description is padded until a chosen non-final gzip member ends on a multiple of 4096 bytes (rows stamped with the run that produced them); "
+        "'longrows' enumerates single evaluations of 16385..70000 rows with fields that appear / disappear late; 'gzcut' enumerates .gz logs cut at every "
+        "byte offset inside one gzip member followed by a restored run. Non-trivial = some triple has ragged key sets or a "
         "nested / non-finite / non-ASCII-or-control-character value; distinct = distinct canonical JSON of the case")
 ASSUMPTIONS = [
     "field names of one evaluator output, and the keys of one params dictionary, are pairwise distinct under == and under str() (1 vs '1' vs 1.0 vs True in one output is not generated: the statement does not say which wins)",
@@ -122,7 +124,8 @@ def ids_of(case):
         out.append((em[e], lm[l], vm[v]))
     return em, lm, vm, out
 
-def build_model(case):
+def build_model(case, rerun=()):
+    """rerun: id triples that were evaluated by the second (restored) run of a stamped case"""
     em, lm, vm, tids = ids_of(case)
     inter = {}
     empties = set()
@@ -130,7 +133,7 @@ def build_model(case):
         if rows and all(len(r) == 0 for r in rows): empties.add(tid)
         for n, row in enumerate(rows, 1):
             inter[tid + (n,)] = {str(k): v for k, v in row.items()}
-            if case.get("stamp"): inter[tid + (n,)]["run"] = 1   # every recorded row was produced by the first run
+            if case.get("stamp"): inter[tid + (n,)]["run"] = 2 if tid in rerun else 1   # rows of a recorded evaluation come from the first run
     def ptable(idmap, plist, name_key, default):
         out = {}
         for i, cid in idmap.items():
@@ -273,6 +276,7 @@ def same_results(what, a, b, logs):
 
 def run(case):
     case = expand(case)
+    if "cut" in case: return run_cut_sweep(case)
     if "align" in case: case = with_aligned_description(case)
     model = build_model(case)
     logs = []
@@ -290,7 +294,6 @@ def run(case):
         except Exception as e:
             raise Violation(f"Result.from_file raised {type(e).__name__}: {ascii_text(e)}") from e
         if "exact_len" in case:
-            import gzip
             with (gzip.open(path, "rb") if case["sink"] == "gz" else open(path, "rb")) as f:
                 longest = max(len(line.rstrip(b"\n")) for line in f)
             if longest != case["exact_len"]: raise Inconclusive(f"longest record has {longest} characters, wanted {case['exact_len']}")
@@ -323,6 +326,18 @@ def expand(case):
     elif big["kind"] == "long-param":
         case["envs"] = [{"blob": big["char"] * big["len"], "k": 1}]
         case["rows"] = [[{"a": 1, "b": (1, 2)}, {"a": 2}]]
+    elif big["kind"] == "late-fields":
+        # one long evaluation: field f"from{p}" is yielded from row p on, f"upto{p}" only before row p, "only{a}" in rows a..b-1
+        def row(i):
+            r = {"i": i}
+            for p in big.get("from", ()):
+                if i >= p: r[f"from{p}"] = i % 5
+            for p in big.get("upto", ()):
+                if i < p: r[f"upto{p}"] = [i % 3]
+            for a, b in big.get("only", ()):
+                if a <= i < b: r[f"only{a}"] = f"v{i % 4}"
+            return r
+        case["rows"] = [[row(i) for i in range(big["n"])]]
     elif big["kind"] == "exact":
         # one ASCII cell sized so that the packed record (without its line feed) has exactly big["chars"] characters
         probe = dict(case, big=None, rows=[[{"a": 1, "text": ""}, {"a": 2, "text": "t"}]], sink="plain", restore=False)
@@ -381,6 +396,51 @@ def with_aligned_description(case):
     finally:
         shutil.rmtree(tmp, ignore_errors=True)
     raise Inconclusive("no description length aligns the member")
+
+def run_cut_sweep(case):
+    """A run that was killed while it wrote gzip member k of its .gz result file, at every byte offset inside that member.
+
+    The records of a finished, stamped run are taken from its result file and written again one gzip member per record (what
+    DiskSink(batch=1) does) with a fixed mtime, so that the bytes - and the kill points that follow a 0x0a byte - do not depend
+    on the clock. For every cut the same experiment is run on the cut file: it has to return, the evaluations whose record was
+    complete keep the rows of the first run (run == 1), the others are evaluated by the second run (run == 2), params tables and
+    the experiment record are as in the fresh run, and Result.from_file afterwards equals the returned Result."""
+    want = case["cut"]
+    logs = []
+    tmp = tempfile.mkdtemp(prefix="c07-", dir=TMP_ROOT)
+    try:
+        full = os.path.join(tmp, "full.log.gz")
+        r_fresh = do_run(case, full, logs, "fresh gz file")
+        check_model("fresh gz file", r_fresh, build_model(case), logs)
+        with gzip.open(full, "rb") as f:
+            lines = [l for l in f.read().split(b"\n") if l.strip()]
+        members = [gzip.compress(l + b"\n", compresslevel=6, mtime=want["mtime"]) for l in lines]
+        k = (len(members) - want["from_end"]) % len(members)
+        done = set()
+        for l in lines[:k]:
+            rec = json.loads(l)
+            if rec[0] == "I" and rec[2].get("_packed"): done.add(tuple(rec[1]))
+        _, _, _, tids = ids_of(case)
+        model = build_model(case, rerun={t for t in tids if t not in done})
+        head, member = b"".join(members[:k]), members[k]
+        cuts = range(1, len(member)) if want.get("step", 1) == 1 else sorted(set(range(1, len(member), want["step"])) |
+                                                                             {p for p in range(1, len(member)) if member[p - 1] == 0x0a})
+        path = os.path.join(tmp, "result.log.gz")
+        for p in cuts:
+            with open(path, "wb") as f: f.write(head + member[:p])
+            what = f"restored, killed {p} of {len(member)} bytes into member {k} (previous byte 0x{member[p - 1]:02x})"
+            cut_logs = []
+            r_rest = do_run(case, path, cut_logs, what, stamp=2)
+            check_model(what, r_rest, model, cut_logs)
+            require(plain(r_rest.experiment) == plain(r_fresh.experiment), f"[{what}] experiment record differs from the fresh run",
+                    fresh=r_fresh.experiment, restored=r_rest.experiment)
+            try:
+                r_load = Result.from_file(path)
+            except Exception as e:
+                raise Violation(f"[{what}] Result.from_file raised {type(e).__name__}: {ascii_text(e)}") from e
+            same_results(f"[{what}] returned Result and Result.from_file", dump(r_rest), dump(r_load), cut_logs)
+    finally:
+        shutil.rmtree(tmp, ignore_errors=True)
 
 # ------------------------------------------------------------------------------------------------ strategies
 NASTY = ["", " ", "\u00e9", "\u65e5\u672c\u8a9e", "a\nb", "\r\n", 'q"q', "it's", "\\", "\\n", "\t", "\u2028", "\x00", "NaN", "null",
@@ -524,6 +584,42 @@ def gzalign(tier):
                 for blocks in ((1,) if tier == "quick" else (1, 2, 3)):
                     yield dict(shape, sink="gz", restore=True, stamp=True, align={"member": member, "salt": salt, "blocks": blocks})
 
+def longrows(tier):
+    """one evaluation of more than 2**10 .. 2**16 rows whose fields appear and disappear late"""
+    def c(big, sink, restore): return dict(BASE, big=dict(big, kind="late-fields"), sink=sink, restore=restore, stamp=restore)
+    yield c({"n": 16385, "from": [16384]}, "none", False)                                        # a field on the very last row only
+    yield c({"n": 20000, "from": [1024, 4096, 16384], "upto": [100, 8192], "only": [[16384, 16390]]}, "plain", True)
+    yield c({"n": 40000, "from": [2048, 32768, 39999], "upto": [16384, 32768], "only": [[16384, 32768], [8192, 8193]]}, "gz", False)
+    if tier == "thorough":
+        for sink, restore in (("none", False), ("plain", False), ("gz", True)):
+            for n in (1025, 4097, 8193, 16384, 16385, 16386, 32768, 32769, 32770, 49153, 65537, 70000):
+                yield c({"n": n, "from": [n - 1]}, sink, restore)
+                yield c({"n": n, "upto": [1], "only": [[n // 2, n // 2 + 1]]}, sink, restore)
+            yield c({"n": 70000, "from": [2 ** k for k in range(9, 17)], "upto": [2 ** k for k in range(9, 17)],
+                     "only": [[2 ** k, 2 ** k + 1] for k in range(9, 17)]}, sink, restore)
+
+CUT_SHAPES = [
+    dict(BASE, envs=[{"p": [1, 2]}, {"p": "two"}], lrns=[{"q": 0.25}], triples=[[0, 0, 0], [1, 0, 0]],
+         rows=[[{"a": 1, "b": [1, 2], "t": "line\n1"}, {"a": 2}], [{"a": 0.5, "n": [0, (1, {"k": None})]}, {"c": "x"}, {"a": 3}]]),
+    dict(BASE, envs=[{}], lrns=[{}, {"family": "L"}], vals=[{"args": (1, 2)}], triples=[[0, 0, 0], [0, 1, 0]], form="triples",
+         rows=[[{"reward": i / 4, "action": i % 3} for i in range(6)], [{"reward": float("nan")}, {"reward": 1, "x y": "\u00e9"}]]),
+    dict(BASE, envs=[{"p": 1}, {"p": 2}, {"p": 3}], triples=[[0, 0, 0], [1, 0, 0], [2, 0, 0]],
+         rows=[[{"reward": (e + 1) * i, "text": f"line\n{i}", "nest": [e, (i, {"k": None})]} for i in range(5)] for e in range(3)]),
+]
+
+def gzcut(tier):
+    """every kill point inside one gzip member of a small .gz log, then a restored run"""
+    if tier == "quick":
+        for shape in CUT_SHAPES[:2]:
+            for from_end in (1, 2):
+                yield dict(shape, sink="gz", restore=True, stamp=True, cut={"from_end": from_end, "mtime": 0x0A0A0A0A})
+    else:
+        for shape in CUT_SHAPES:
+            n_members = 2 + len(shape["envs"]) + len(shape["lrns"]) + len(shape["vals"]) + len(shape["triples"])
+            for from_end in range(1, n_members + 1):
+                for mtime in (0, 10, 0x0A0A0A0A, 0x12345678):
+                    yield dict(shape, sink="gz", restore=True, stamp=True, cut={"from_end": from_end, "mtime": mtime})
+
 # ------------------------------------------------------------------------------------------------ evidence
 def _walk(v):
     yield v
@@ -575,12 +671,14 @@ def features(case):
     return f
 
 def nontrivial(case):
-    if "big" in case or "align" in case: return True
+    if "big" in case or "align" in case or "cut" in case: return True
     return bool(features(case) & {"ragged", "nested", "dict-value", "non-finite", "odd-string", "odd-field-name", "non-str-field"})
 
 def classes(case):
     if "big" in case:
         return ["big:" + case["big"]["kind"], "sink=" + case["sink"]] + (["restored"] if case["restore"] else [])
+    if "cut" in case:
+        return [f"cut-member-from-end={case['cut']['from_end']}", f"mtime=0x{case['cut']['mtime']:08x}", f"triples={len(case['triples'])}"]
     if "align" in case:
         return [f"aligned-member={case['align']['member']}", f"blocks={case['align'].get('blocks', 1)}", f"triples={len(case['triples'])}"]
     out = sorted(features(case))
@@ -614,6 +712,10 @@ SUBCHECKS = [
         what="complete enumeration: one column ('a' and 'rewards') over all sequences of 1..3 rows drawn from 10 value shapes (absent, None, int, float, str, list, tuple, empty list, dict, nested list)"),
     Sub(name="bigfile", run=run, enumerate=bigfile, nontrivial=nontrivial, classes=classes, classify=classify, quick_shards=1, thorough_shards=8,
         what="a single record of the result file longer than 1 MiB (many rows, very long cells, a very long params value) and records of exactly 2**20-1 / 2**20 / 2**20+1 characters, plain and .gz, fresh and restored: model + three-route oracle"),
+    Sub(name="longrows", run=run, enumerate=longrows, nontrivial=nontrivial, classes=classes, classify=classify, quick_shards=1, thorough_shards=8,
+        what="one evaluation of 16385..40000 rows (thorough 1025..70000) whose fields first appear, disappear or occur only once late in the evaluation (around rows 2**9..2**16); no file, plain, .gz, restored: model + three-route oracle"),
+    Sub(name="gzcut", run=run, enumerate=gzcut, nontrivial=nontrivial, classes=classes, classify=classify, quick_shards=2, thorough_shards=8,
+        what="restored run on a .gz log that was cut at EVERY byte offset inside one gzip member (quick: the last two members of two small logs, header mtime bytes 0x0a; thorough: every member of three logs x 4 mtimes): the run returns, completed evaluations keep the rows of the first run, the others come from the second run, from_file agrees (one case = one sweep of 70-300 restored runs)"),
     Sub(name="gzalign", run=run, enumerate=gzalign, nontrivial=nontrivial, classes=classes, classify=classify, quick_shards=1, thorough_shards=4,
         what="restored run on a complete .gz file whose description is padded until a chosen non-final gzip member ends on a multiple of 4096 bytes; rows carry the number of the run that produced them, so a completed triple that is dropped and evaluated again changes the table (cases where no padding aligns the member are inconclusive)"),
 ]
